@@ -294,7 +294,7 @@ impl<A: Float> AffFuncG<A> {
     #[rustfmt::skip]
     pub fn translation(dim: usize, offset: Array1<A>) -> AffFuncG<A> {
         AffFuncG::<A>::from_mats(
-            Array2::zeros((offset.shape()[0], dim)),
+            Array2::eye(dim),
             offset
         )
     }
